@@ -35,6 +35,7 @@ const (
 	tSigPadded         // signature segment with one extra trailing byte
 	tSigTruncated      // signature segment with its last byte removed
 	tSigBitFlip        // one byte of the signature changed
+	tKeyReuse          // recover: the next recovery commitment commits to the very key that is being revealed
 	tCount
 )
 
@@ -162,6 +163,9 @@ func buildCase(typ operation.Type, tamper int, code uint, suffix string) *stepCa
 		if tamper == tSuffixMismatch {
 			return nil
 		}
+		if tamper == tKeyReuse {
+			return nil // the applier's (batch) parse of an update does not look at key re-use: not part of this claim
+		}
 		key := gen.NewSignerKind("upd", keyKind)
 		signer := key
 		if tamper == tWrongSigner {
@@ -187,7 +191,11 @@ func buildCase(typ operation.Type, tamper int, code uint, suffix string) *stepCa
 		if tamper == tWrongSigner {
 			signer = otherSigner(key)
 		}
-		r := gen.NewRecover(suffix, code, signer, gen.Key("next-rec"), gen.Key("next-upd"), c.from, c.until, c.patches...)
+		nextRec := gen.Key("next-rec")
+		if tamper == tKeyReuse {
+			nextRec = signer.JWK
+		}
+		r := gen.NewRecover(suffix, code, signer, nextRec, gen.Key("next-upd"), c.from, c.until, c.patches...)
 		r.Signed.AnchorOrigin = verifrt.AnyAtom("op-origin")
 		r.Request.SignedData = signer.Sign(r.Signed)
 		c.origin = r.Signed.AnchorOrigin
@@ -206,7 +214,7 @@ func buildCase(typ operation.Type, tamper int, code uint, suffix string) *stepCa
 		}
 	case operation.TypeDeactivate:
 		switch tamper {
-		case tDeltaSubstituted, tDeltaInvalid, tInapplicable:
+		case tDeltaSubstituted, tDeltaInvalid, tInapplicable, tKeyReuse:
 			return nil
 		}
 		key := gen.NewSignerKind("rec", keyKind)
@@ -274,7 +282,7 @@ func expectRefusal(c *stepCase, hasDoc bool, p protocol.Protocol, t uint64) bool
 		return true // create only on an empty state, the others only on an existing one
 	}
 	switch c.tamper {
-	case tUnparsable, tWrongSigner, tPayloadChanged, tRevealMismatch, tExtraHeader, tAlgNotAllowed, tTruncated, tSuffixMismatch, tSigPadded, tSigTruncated, tSigBitFlip:
+	case tUnparsable, tWrongSigner, tPayloadChanged, tRevealMismatch, tExtraHeader, tAlgNotAllowed, tTruncated, tSuffixMismatch, tSigPadded, tSigTruncated, tSigBitFlip, tKeyReuse:
 		return true
 	}
 	switch c.typ {
@@ -407,7 +415,7 @@ var allTypes = []operation.Type{operation.TypeCreate, operation.TypeUpdate, oper
 // Harness_C01_Step: every operation type x failure class x pre-state, anchoring tuple symbolic.
 func Harness_C01_Step() {
 	keyKind = 0
-	applierStep(allTypes, []int{tNone, tUnparsable, tWrongSigner, tDeltaSubstituted, tDeltaInvalid, tInapplicable, tSuffixMismatch})
+	applierStep(allTypes, []int{tNone, tUnparsable, tWrongSigner, tDeltaSubstituted, tDeltaInvalid, tInapplicable, tSuffixMismatch, tKeyReuse})
 }
 
 // Harness_C02_Tamper: every tampering class of a signed operation.
